@@ -49,6 +49,22 @@ def answer (toks : List String) : String :=
   match toks with
   | ["es", ts1, bx, ts2, by_, tm, lag] =>
       showES (esSeries (rats ts1) (bools bx) (rats ts2) (bools by_) (optRat tm) (ratD lag))
+  | ["esformula", ts1, bx, ts2, by_, tm, lag] =>
+      showES (esSpec (select (rats ts1) (bools bx)) (select (rats ts2) (bools by_)) (optRat tm)
+        (ratD lag))
+  | ["ecaformula", ts1, bx, ts2, by_, tm, lag] =>
+      match ecaFormula (select (rats ts1) (bools bx)) (select (rats ts2) (bools by_)) (ratD tm)
+          (ratD lag) with
+      | none => "raise"
+      | some o => join [showRate o.prec12, showRate o.trig12, showRate o.prec21, showRate o.trig21]
+  | ["ecarateformula", w, ts1, bx, ts2, by_, tm, lag] =>
+      match window? w with
+      | none => "bad-request"
+      | some w =>
+        match ecaRateFormula w (select (rats ts1) (bools bx)) (select (rats ts2) (bools by_))
+            (ratD tm) (ratD lag) with
+        | none => "raise"
+        | some (a, b) => join [showRate a, showRate b]
   | ["eca", ts1, bx, ts2, by_, tm, lag] =>
       match ecaSeries (rats ts1) (bools bx) (rats ts2) (bools by_) (ratD tm) (ratD lag) with
       | none => "raise"
